@@ -72,6 +72,9 @@ class Report:
         self.cov = {"samples": []}
         self.assumptions = []
         self.vacuity = []
+        Report.current = self
+
+    current = None
 
     def note(self, text, sample=None):
         self.notes[text] = self.notes.get(text, 0) + 1
